@@ -27,7 +27,7 @@ class StcStc2(Opcode):
                         processor.registers.get(self.n), self.imm32, 32)
                     address = offset_addr if self.index else processor.registers.get(self.n)
                     first_pass = True
-                    while first_pass or processor.coproc_done_storing(self.cp, processor.this_instr()):
+                    while first_pass or not processor.coproc_done_storing(self.cp, processor.this_instr()):
                         first_pass = False
                         processor.mem_a_set(address, 4,
                                             processor.coproc_get_word_to_store(self.cp, processor.this_instr()))
